@@ -69,7 +69,7 @@ func genCfg(rng *rand.Rand, profile string) Cfg {
 	if rng.Intn(2) == 0 {
 		c.Providers = []string{"google", "fb"}
 	}
-	c.Preserve = []string{}
+	c.Preserve = [][]string{{}, {}, {"name"}, {"name", "email"}}[rng.Intn(4)]
 	c.OneTime = rng.Intn(100) < 65
 	switch profile {
 	case "lock":
@@ -270,7 +270,11 @@ func (g *Gen) appVariant() string {
 	if g.cfg.Expire {
 		expmw = bit(80)
 	}
-	return v + lockmw + confmw + remmw + expmw
+	ctor := "0"
+	if v[2] != 'u' && g.rng.Intn(100) < 20 {
+		ctor = pickS(g.rng, "1", "2")
+	}
+	return v + lockmw + confmw + remmw + expmw + ctor
 }
 
 type intent struct {
@@ -331,7 +335,11 @@ func (g *Gen) intents() []intent {
 		add(1, func() []SymStep { b, _, _ := g.loggedIn(); return one(g.req(b, "POST", "OtpClear", nil)) })
 		add(1, func() []SymStep {
 			b, _, _ := g.loggedIn()
-			return one(g.req(b, "GET", pickS(g.rng, "OtpAdd", "OtpClear", "OtpLogin"), nil))
+			st := g.req(b, "GET", pickS(g.rng, "OtpAdd", "OtpClear", "OtpLogin"), nil)
+			if g.rng.Intn(100) < 30 {
+				st.Req.Query = []KV{{"redir", lit("/back")}}
+			}
+			return one(st)
 		})
 	}
 	add(10, func() []SymStep {
@@ -383,6 +391,17 @@ func (g *Gen) intents() []intent {
 			if g.rng.Intn(100) < 30 {
 				form = append(form, KV{"name", lit("N " + u)}, KV{"admin", lit("1")})
 			}
+			for _, k := range c.Preserve {
+				if g.rng.Intn(100) < 40 {
+					dup := false
+					for _, kv := range form {
+						dup = dup || kv.K == k
+					}
+					if !dup {
+						form = append(form, KV{k, lit("kept " + k)})
+					}
+				}
+			}
 			if g.rng.Intn(100) < 8 {
 				form[0].V = lit(pickS(g.rng, "", "notanemail", "a@b", "x@y.Z", " "))
 			}
@@ -408,6 +427,9 @@ func (g *Gen) intents() []intent {
 			u := g.known()
 			if g.rng.Intn(100) < 15 {
 				u = "ghost"
+			}
+			if g.rng.Intn(100) < 12 {
+				return one(g.req(g.browser(), "POST", "RecoverStart", []KV{{pf, lit(pickS(g.rng, "", " ", "no-at-sign", "1"))}}))
 			}
 			return one(g.req(g.browser(), "POST", "RecoverStart", []KV{{pf, Desc{K: "pid", U: u}}}))
 		})
@@ -638,7 +660,11 @@ func (g *Gen) intents() []intent {
 		return one(s)
 	})
 	add(2, func() []SymStep {
-		return one(g.req(g.browser(), "GET", pickS(g.rng, "Login", "Register", "RecoverStart", "Logout", "Confirm"), nil))
+		st := g.req(g.browser(), "GET", pickS(g.rng, "Login", "Register", "RecoverStart", "Logout", "Confirm"), nil)
+		if g.rng.Intn(100) < 30 {
+			st.Req.Query = []KV{{"redir", lit(pickS(g.rng, "/back", "/back?x=1", "http://evil.test/"))}}
+		}
+		return one(st)
 	})
 	add(2, func() []SymStep { // wrong method on an existing route
 		return one(g.req(g.browser(), pickS(g.rng, "DELETE", "PUT"), pickS(g.rng, "Login", "Register", "OtpAdd", "TotpValidate", "SmsValidate"), nil))
@@ -1013,6 +1039,107 @@ func (g *Gen) scenarios() []intent {
 			for i := 0; i < 2+g.rng.Intn(3); i++ {
 				e := int64(c.ExpireAfter)
 				out = append(out, SymStep{Kind: "tick", D: []int64{5, e / 2, e - 4, e + 4, 2 * e}[g.rng.Intn(5)]}, app)
+			}
+			return out
+		})
+	}
+
+	if c.has("auth") && (c.has("confirm") || c.has("lock")) {
+		// a session that outlives the account's standing: logged in, then the account is locked or
+		// its confirmation restarted, then the application route behind the lock/confirm middleware
+		add(boost(3, "lock", "tokens", "general"), func() []SymStep {
+			u := g.known()
+			b := g.browser()
+			out := []SymStep{g.loginStep(b, u, Desc{K: "pw", U: u}, false)}
+			if _, ok := g.twofaUser(); ok {
+				out = append(out, g.validateStep(b, u))
+			}
+			kind := "lock"
+			if !c.has("lock") || (c.has("confirm") && g.rng.Intn(2) == 0) {
+				kind = "startconfirm"
+			}
+			out = append(out, SymStep{Kind: kind, U: u})
+			arg := []byte("00n0000" + pickS(g.rng, "0", "0", "1"))
+			arg[2] = pickS(g.rng, "n", "r")[0]
+			if c.has("lock") {
+				arg[3] = pickS(g.rng, "1", "1", "0")[0]
+			}
+			if c.has("confirm") {
+				arg[4] = pickS(g.rng, "1", "1", "0")[0]
+			}
+			app := SymStep{Kind: "req", Req: &SymReq{Browser: b, Method: "GET", Route: "App", Arg: string(arg)}}
+			out = append(out, app)
+			if kind == "lock" && g.rng.Intn(2) == 0 {
+				out = append(out, SymStep{Kind: "unlock", U: u}, app)
+			}
+			return out
+		})
+	}
+	if c.has("otp") {
+		// the sixth one-time password is refused
+		add(boost(1, "onetime"), func() []SymStep {
+			b, u, ok := g.loggedIn()
+			var out []SymStep
+			if !ok {
+				out = append(out, g.loginStep(b, u, Desc{K: "pw", U: u}, false))
+			}
+			for i := 0; i < 6; i++ {
+				out = append(out, g.req(b, "POST", "OtpAdd", nil))
+			}
+			out = append(out, g.req(b, "GET", "OtpAdd", nil))
+			return append(out, g.req(g.browser(), "POST", "OtpLogin", []KV{{g.pidField(), Desc{K: "pid", U: u}}, {"password", Desc{K: "otp", U: u, I: g.rng.Intn(5)}}}))
+		})
+	}
+	if c.has("remember") {
+		// malformed remember cookies of every shape: each is deleted and authenticates nobody
+		add(boost(2, "remember"), func() []SymStep {
+			b := g.browser()
+			u := g.known()
+			return []SymStep{{Kind: "dropsess", U: b}, {Kind: "forgecookie", U: b, PW: &Desc{K: "lit", V: u}, D: int64(1 + g.rng.Intn(7))},
+				{Kind: "req", Req: &SymReq{Browser: b, Method: "GET", Route: "App", Arg: pickS(g.rng, "00u0010", "00r0010", "10n0010")}}}
+		})
+	}
+	if c.has("oauth2") {
+		// the provider reports an error on a callback that carries the right state; then the state is spent
+		add(boost(2, "oauth2"), func() []SymStep {
+			b := g.browser()
+			prov := pickS(g.rng, c.Providers...)
+			st := SymStep{Kind: "req", Req: &SymReq{Browser: b, Method: "GET", Route: "OAuthStart", Arg: prov}}
+			pa := &ProviderAnswer{ExchangeOK: true, DetailsOK: true, UID: pickS(g.rng, "100", "300"), Email: "o@x.io", Token: "tokB", Refresh: pickS(g.rng, "ref2", "ref2", "")}
+			q := []KV{{"state", Desc{K: "sessval", B: b, V: "oauth2_state"}}, {"code", lit("c")}}
+			cbOK := SymStep{Kind: "req", Req: &SymReq{Browser: b, Method: "GET", Route: "OAuthCallback", Arg: prov, Query: q}, PA: pa}
+			qe := append(append([]KV{}, q...), KV{"error", lit("access_denied")}, KV{"error_reason", lit("user_denied")})
+			cbErr := SymStep{Kind: "req", Req: &SymReq{Browser: b, Method: "GET", Route: "OAuthCallback", Arg: prov, Query: qe}, PA: pa}
+			if g.rng.Intn(2) == 0 {
+				return []SymStep{st, cbErr, cbOK}
+			}
+			return []SymStep{st, cbOK, st, cbErr}
+		})
+	}
+	if c.Totp || c.Sms {
+		// the pages around enrolment: confirm page with and without a pending secret, regenerate page with codes
+		add(boost(1, "twofactor"), func() []SymStep {
+			b, u, ok := g.loggedIn()
+			var out []SymStep
+			if !ok {
+				out = append(out, g.loginStep(b, u, Desc{K: "pw", U: u}, false))
+			}
+			switch {
+			case c.Totp && g.rng.Intn(2) == 0:
+				if g.rng.Intn(3) != 0 {
+					out = append(out, g.req(b, "POST", "TotpSetup", nil))
+				}
+				out = append(out, g.req(b, "GET", "TotpConfirm", nil), g.req(b, "GET", "TotpQR", nil),
+					g.req(b, "POST", "TotpConfirm", []KV{{"code", Desc{K: "totp", U: u}}}))
+			case c.Sms:
+				if g.rng.Intn(3) != 0 {
+					out = append(out, g.req(b, "POST", "SmsSetup", []KV{{"phone_number", lit(g.r.account(u).Phone)}}))
+				}
+				out = append(out, g.req(b, "GET", "SmsConfirm", nil), g.req(b, "POST", "SmsConfirm", nil),
+					g.req(b, "POST", "SmsConfirm", []KV{{"code", Desc{K: "sessval", B: b, V: "sms_secret"}}}))
+			}
+			if c.Recovery {
+				out = append(out, g.req(b, "POST", "RecoveryRegen", nil), g.req(b, "GET", "RecoveryRegen", nil))
 			}
 			return out
 		})
